@@ -24,8 +24,8 @@ ANCHOR_FILES = ["src/ropt/optimization/_optimizer.py", "src/ropt/ensemble_evalua
 RULE = ("case = (mode, V, mask, method/script, options); non-trivial if the mask fixes at least one variable and at least one evaluator row was checked; distinct key = case; "
         "monitor_counters: rows/entries checked, gradient entries checked, nested hand-offs")
 ASSUMPTIONS = ["initial values inside the bounds", "nested cases use no variable transform (domain convention of the hand-off is user code)"]
-REQUIRED = {"quick": {"evaluator_rows_checked": 20000, "fixed_entries_checked": 30000, "gradient_fixed_entries_checked": 2000, "result_vectors_checked": 5000, "algorithm_vectors_checked": 3000, "nested_handoffs": 150, "nested_rows_after_handoff": 1000, "explicit_start_vector": 100, "gradients_with_all_realizations_failed": 25, "step_reruns_without_the_nested_plan": 40, "with_relative_perturbations": 50, "requests_in_another_number_type": 80, "__nontrivial__": 300},
-            "thorough": {"evaluator_rows_checked": 315045, "fixed_entries_checked": 523595, "gradient_fixed_entries_checked": 60000, "result_vectors_checked": 150000, "algorithm_vectors_checked": 100000, "nested_handoffs": 5000, "nested_rows_after_handoff": 28068, "explicit_start_vector": 903, "gradients_with_all_realizations_failed": 400, "step_reruns_without_the_nested_plan": 800, "with_relative_perturbations": 400, "requests_in_another_number_type": 800, "__nontrivial__": 4000}}
+REQUIRED = {"quick": {"evaluator_rows_checked": 20000, "fixed_entries_checked": 30000, "gradient_fixed_entries_checked": 2000, "result_vectors_checked": 5000, "algorithm_vectors_checked": 3000, "nested_handoffs": 150, "nested_rows_after_handoff": 1000, "explicit_start_vector": 100, "gradients_with_all_realizations_failed": 25, "step_reruns_without_the_nested_plan": 40, "with_relative_perturbations": 50, "requests_in_another_number_type": 80, "step_reruns_with_the_mask_replaced_in_the_same_dictionary": 40, "__nontrivial__": 300},
+            "thorough": {"evaluator_rows_checked": 315045, "fixed_entries_checked": 523595, "gradient_fixed_entries_checked": 60000, "result_vectors_checked": 150000, "algorithm_vectors_checked": 100000, "nested_handoffs": 5000, "nested_rows_after_handoff": 28068, "explicit_start_vector": 903, "gradients_with_all_realizations_failed": 400, "step_reruns_without_the_nested_plan": 800, "with_relative_perturbations": 400, "requests_in_another_number_type": 800, "step_reruns_with_the_mask_replaced_in_the_same_dictionary": 400, "__nontrivial__": 4000}}
 BOUNDS = {"quick": {"Vmax": 4}, "thorough": {"Vmax": 5}}
 METHODS = ["scripted", "slsqp", "l-bfgs-b", "nelder-mead", "powell", "de", "de_vec"]
 
@@ -150,6 +150,9 @@ def _check_results(obs, results, mask, ref, tv, name):
             vecs.append(("perturbed_variables", pv.reshape(-1, pv.shape[-1])))
         for nm, arr in vecs:
             obs.count("result_vectors_checked", int(arr.shape[0]))
+            if arr.shape[1] != mask.size:
+                obs.violation("reported_vector_without_the_fixed_variables", step=name, field=nm, length=int(arr.shape[1]), variables=int(mask.size), mask=mask)
+                return False
             if fixed.any() and not np.all(np.isclose(arr[:, fixed], ref[fixed][None, :], rtol=rt, atol=_roundtrip_atol(tv))):
                 obs.violation("fixed_variable_moved_in_result", step=name, field=nm, got=arr[0], reference=ref, mask=mask)
                 return False
@@ -289,6 +292,23 @@ def run_case(case, obs):
         obs.count("interceptor_not_entered")
     if (~mask).any() and ev.calls:
         obs.nontrivial(case)
+    if tspec is None and V >= 2 and state["ok"] and not spec.get("may_be_refused") and method in ("scripted", "slsqp", "l-bfgs-b") and rng.random() < 0.8:
+        # the same step runs again with the same configuration dictionary, in which the user has replaced the mask in the meantime
+        # (a loop over blocks of variables with one dictionary): the mask now in the dictionary is the one that counts
+        m2 = ~mask if (~mask).any() else (rng.random(V) < 0.5)
+        if not m2.any():
+            m2[int(rng.integers(V))] = True
+        if m2.all():
+            m2[int(rng.integers(V))] = False
+        cfgd["variables"]["mask"] = m2.tolist()
+        start2 = ref_user + rng.uniform(-0.03, 0.03, size=V)
+        if spec.get("lb") is not None:
+            start2 = np.clip(start2, np.asarray(spec["lb"]) + 1e-6, np.asarray(spec["ub"]) - 1e-6)
+        mask, nfree, ref_user = m2, int(m2.sum()), start2.copy()      # (the monitors above read these names when they are called)
+        mon.stack[-1] = {"mask": mask, "ref": ref_user, "name": "step (second run, mask replaced in the same dictionary)"}
+        obs.count("step_reruns_with_the_mask_replaced_in_the_same_dictionary")
+        with scipy_hook.active(handler):
+            plan.run_step(step, config=cfgd, transforms=None, variables=start2)
     obs.feature("method." + method)
     obs.feature("transform" if tspec else "no_transform")
     obs.sample({"V": V, "mask": case["mask"], "method": method, "samplers": spec["samplers"], "assignment": spec.get("smap"), "transforms": tspec,
